@@ -174,7 +174,7 @@ Proof.
 Qed.
 
 Lemma upload_one_no_create (cfg : runcfg R) today nm d :
-  forallb (fun e => negb (is_create e)) (snd (fst (upload_one R cfg today nm d))) = true.
+  forallb (fun e => negb (is_create e)) (fst (upload_one R cfg today nm d)) = true.
 Proof.
   unfold upload_one. destruct (future_report today nm); [reflexivity|].
   destruct (d_local d) as [l|]; [|reflexivity].
@@ -191,8 +191,8 @@ Lemma upload_all_no_create (cfg : runcfg R) today ready : forall d,
 Proof.
   induction ready as [|r rest IH]; intros d; cbn [upload_all]; [reflexivity|].
   pose proof (upload_one_no_create cfg today r d) as P.
-  destruct (upload_one R cfg today r d) as [[p e] d1]. cbn [fst snd] in P.
-  destruct p; [exact P|]. specialize (IH d1).
+  destruct (upload_one R cfg today r d) as [e d1]. cbn [fst snd] in P.
+  specialize (IH d1).
   destruct (upload_all R cfg today rest d1) as [e2 d2]. cbn [fst] in *. rewrite forallb_app, P, IH. reflexivity.
 Qed.
 
